@@ -1129,7 +1129,7 @@ def oracle(ctx: vlib.Ctx, boost: bool = False):
 # the check
 # ---------------------------------------------------------------------------
 
-THEOREMS = ["C16_line_literal", "C16_line_literal_bytes", "C16_site_line", "C16_render_eval", "C16_sites_full", "C16_site_value", "C16_default_branches_safe", "C16_default_literal_general",
+THEOREMS = ["C16_ident_sites", "C16_ident_site", "C16_line_literal", "C16_line_literal_bytes", "C16_site_line", "C16_render_eval", "C16_sites_full", "C16_site_value", "C16_default_branches_safe", "C16_default_literal_general",
             "C16_default_literal", "C16_repr_tuple_refuted", "C16_repr_lex", "C16_ascii_lex", "C16_repr_bytes_lex", "C16_repr_clean", "C16_raw_plain_lex",
             "C16_raw_refuted", "C16_sites", "C16_site_literal", "C16_site_guarded", "C16_ident_char_inert",
             "C16_site_literal_bytes"]
@@ -1153,6 +1153,11 @@ def k10_evidence(ctx: vlib.Ctx):
                            "not_ok_rows": [f"{r['kind']} {r['file'].split('/')[-1]}:{r['line']} {r['expr'][:60]} ({r['origin'][:60]})" for r in bad[:20]],
                            "sites": [f"{r['kind']} {r['file'].split('/')[-1]}:{r['line']} {r['func']} {r['expr'][:40]} <{r['origin'][:30]}> {r['before'][-24:]!r} . {r['after'][:12]!r}"
                                      for r in rep["sites"]][:80]}
+    isites = rep.get("ident_sites", [])
+    ctx.coverage["k10"]["ident_sites"] = len(isites)
+    ctx.coverage["k10"]["ident_sites_not_plain"] = [f"{r['file'].split('/')[-1]}:{r['line']} {r['expr']} <{r['origin'][:40]}>" for r in isites if not r["plain"]][:10]
+    if ctx.coverage["k10"]["ident_sites_not_plain"]:
+        ctx.coverage["k10"]["not_ok_rows"] += ["ident " + x for x in ctx.coverage["k10"]["ident_sites_not_plain"]]
     for r in rep["sites"]:
         ctx.hist("k10_origin", r["origin"][:40])
     return rep
